@@ -3,7 +3,7 @@
 # In the agent's scratch worktree /tmp/mut_<id>: existing tests pass WITH the change, the demo FAILS with it and PASSES without it.
 id="$1"; crate="$2"; demo="$3"; shift 3
 W=/tmp/mut_$id; O=/tmp/mut_${id}_out
-export CARGO_NET_OFFLINE=true CARGO_TARGET_DIR=$W/target
+export CARGO_NET_OFFLINE=true CARGO_TARGET_DIR=${MUT_TARGET:-$W/target}
 cd $W || exit 2
 echo "== worktree status"; git status --short | head
 echo "== existing tests with the change (excluding the demo)"
